@@ -30,6 +30,12 @@ def classify(m):
                 # CPython looks the method up before it evaluates the call arguments; compiled code evaluates the
                 # arguments first, so their side effects happen although the lookup then fails (C20 finding)
                 return 'method-lookup-after-argument-evaluation'
+            k = next((i for i, (x, y) in enumerate(zip(el, gl)) if x != y), None)
+            if k is not None and el[k][0] == 'tuple' and gl[k][0] == 'tuple' and el[k][1][0] == ['str', "'AttributeError'"] \
+                    and gl[k][1][0][0] == 'str' and gl[k][1][0] != el[k][1][0] and el[k + 1:] == gl[k + 1:]:
+                # the same mechanism observed from inside a handler that logs (type name, arity) of what it caught: CPython
+                # caught the failed method lookup, compiled code an exception raised by the argument evaluation
+                return 'method-lookup-after-argument-evaluation'
         except Exception:
             pass
         return 'sideeffect-log-differs'
